@@ -321,7 +321,11 @@ func encHttpConv(p sx.Sx) (cb, sb []byte) {
 
 func genHttpConv(r *Rand, tier string, emit func(sx.Sx)) {
 	methods := []string{"GET", "POST", "PUT", "DELETE", "PATCH", "OPTIONS"}
-	targets := []string{"/", "/a/b/c", "/search?q=x&q=y&lang=en", "/p%20q?a=1", "/very/long/" + strings.Repeat("seg/", 40), "/x?empty=&k=v", "http://host.example/abs/path?z=1", "/api/v1/items/42"}
+	targets := []string{"/", "/a/b/c", "/search?q=x&q=y&lang=en", "/p%20q?a=1", "/very/long/" + strings.Repeat("seg/", 40), "/x?empty=&k=v", "http://host.example/abs/path?z=1", "/api/v1/items/42",
+		// parameter names that mean something to a later stage, once and repeated (GraphQL over GET); a long path whose
+		// percent-decoded text is multi-byte throughout (a wiki title), so that any byte offset may fall inside a character
+		"/graphql?query=%7Bme%7Bid%7D%7D&query=%7Bme%7Bname%7D%7D", "/search?query=shoes&query=boots&operationName=x&variables=%7B%7D", "/graphql?query=%7Bme%7Bid%7D%7D",
+		"/wiki/" + strings.Repeat("%E6%97%A5%E6%9C%AC%E8%AA%9E", 40), "/w/" + strings.Repeat("%C3%A9", 130) + "/" + strings.Repeat("x", 200)}
 	hnames := []string{"Accept", "X-Custom", "User-Agent", "Cookie", "X-Repeat", "Authorization", "Content-Type", "X-Quote"}
 	hvals := []string{"*/*", "v1", "curl/7.0", "a=1; b=2", "one", "Bearer abc.def", "application/json", "say \"hi\" \\ there", "text/plain; charset=utf-8", strings.Repeat("v", 300)}
 	statuses := []int{200, 201, 204, 301, 400, 404, 500, 200, 200, 404, 599, 600, 745, 999, 226, 451}
